@@ -245,6 +245,7 @@ package ast
 //@   ensures nohole: result.2 == nil ==> result.0 != nil
 //@   ensures index: result.2 == nil ==> okIdx(tokens, token_index, result.1)
 //@   ensures either: result.2 != nil || result.1 < len(tokens)
+//@   ensures leaf: result.2 == nil ==> result.0.Value == tokens[token_index].Lexeme && result.0.Not == not && !result.0.Caseless && result.1 == token_index + 1 [C01]
 
 //@ func parse_variable [C08 C15]
 //@   noframe
@@ -285,6 +286,16 @@ package ast
 //@   ensures nohole: result.2 == nil ==> result.0 != nil
 //@   ensures index: result.2 == nil ==> okIdx(tokens, token_index, result.1)
 //@   ensures either: result.2 != nil || result.1 < len(tokens)
+//@   let ta := tokens[token_index].TokenType
+//@   let b := firstSig(tokens, token_index + 1)
+//@   let tb := tokens[b].TokenType
+//@   ensures flag: result.2 == nil ==> result.0.Not == not [C01]
+//@   ensures one: (ta == ANY || ta == WHITESPACE || ta == DIGIT || ta == UPPER || ta == LOWER || ta == LETTER) ==> result.2 == nil && result.1 == token_index + 1 && result.0.ClassType == (ta == ANY ? ClassAny : (ta == WHITESPACE ? ClassWhitespace : (ta == DIGIT ? ClassDigit : (ta == UPPER ? ClassUpper : (ta == LOWER ? ClassLower : ClassLetter))))) [C01]
+//@   ensures line: ta == LINE && (tb == START || tb == END) ==> result.2 == nil && result.1 == b + 1 && result.0.ClassType == (tb == START ? ClassLineStart : ClassLineEnd) [C01]
+//@   ensures file: ta == FILE && (tb == START || tb == END) ==> result.2 == nil && result.1 == b + 1 && result.0.ClassType == (tb == START ? ClassFileStart : ClassFileEnd) [C01]
+//@   ensures word: ta == WORD && (tb == START || tb == END) ==> result.2 == nil && result.1 == b + 1 && result.0.ClassType == (tb == START ? ClassWordStart : ClassWordEnd) [C01]
+//@   ensures whole: ta == WHOLE && (tb == LINE || tb == FILE || tb == WORD) ==> result.2 == nil && result.1 == b + 1 && result.0.ClassType == (tb == LINE ? ClassWholeLine : (tb == FILE ? ClassWholeFile : ClassWholeWord)) [C01]
+//@   ensures other: !(ta == ANY || ta == WHITESPACE || ta == DIGIT || ta == UPPER || ta == LOWER || ta == LETTER || ((ta == LINE || ta == FILE || ta == WORD) && (tb == START || tb == END)) || (ta == WHOLE && (tb == LINE || tb == FILE || tb == WORD))) ==> result.2 != nil [C01]
 
 //@ func parse_process_set [C08 C15]
 //@   noframe
